@@ -975,6 +975,7 @@ class SgzReader(object):
             raise IndexError(self.range_error.format(index, 0, self.tracecount))
 
         header = self.segy_traceheader_template.copy()
+        values_read = {}  # Fields recorded as duplicates share one stored array: fetch each value only once
 
         for k, v in header.items():
             if isinstance(v, FileOffset):
@@ -982,8 +983,10 @@ class SgzReader(object):
                     self.read_variant_headers()
                     header[k] = self.variant_headers[k][index]
                 else:
-                    buf = self.file.read_range(self.file, v + 4*index, 4)  # A 32-bit int is 4 bytes
-                    header[k] = np.frombuffer(buf, dtype=np.int32)[0]
+                    if v not in values_read:
+                        buf = self.file.read_range(self.file, v + 4*index, 4)  # A 32-bit int is 4 bytes
+                        values_read[v] = np.frombuffer(buf, dtype=np.int32)[0]
+                    header[k] = values_read[v]
         return header
 
     def get_file_binary_header(self):
